@@ -61,3 +61,10 @@ def Meaning(c, x):
     except Exception:
         return False
     return bool(r)
+
+
+def HasKind(cond, cls):
+    """Some leaf of the condition tree `cond` is of class `cls`."""
+    if hasattr(cond, "children"):
+        return any(HasKind(c, cls) for c in cond.children)
+    return isinstance(cond, cls)
